@@ -151,6 +151,12 @@ def run(ck, ctx):
         muts = [e for e in rw.effects if e.kind == "mcall-mutate"]
         cds = [(e,) + call_args(e.node) for e in muts if e.data.get("name") == "create_dataset"]
         cgs = [(e,) + call_args(e.node) for e in muts if e.data.get("name") == "create_group"]
+        for e in muts:
+            if e.data.get("name") in ("require_dataset", "require_group"):
+                ck.ob("R18.1", f"HDF5 writer creates what it writes [{e.data.get('name')} at {e.where()}]", False, e.node,
+                      wn, f"{e.data.get('name')} returns an EXISTING member unchanged (for a data set the data= argument "
+                      "is ignored): writing over an existing grid keeps stale contents",
+                      construct=f"{wn}: {e.data.get('name')} instead of create")
         fixed = [(e, const_str(pos[0])) for e, pos, kw in cds if pos and const_str(pos[0]) is not None]
         per_axis = [(e, pos, kw) for e, pos, kw in cds if pos and const_str(pos[0]) is None]
         ck.ob("R18.1", "HDF5 writer creates one fixed-name data set and one data set per axis",
